@@ -55,6 +55,7 @@ type KnownFinding struct {
 	What     string `json:"what"`
 	Repro    string `json:"repro,omitempty"`
 	Line     string `json:"line,omitempty"`
+	Assert   string `json:"assert,omitempty"` // when set, only a violation whose assertion text contains it belongs to the finding
 }
 
 type KnownFile struct {
@@ -343,7 +344,7 @@ func (c *CheckRun) runLeg(arch string, gen func(*CheckRun) []*Scenario, prefix s
 			v := confirmedV[k]
 			class := v.Scn.Known
 			if class != "" {
-				if f := kf.open(spec.ID, class); f != nil {
+				if f := kf.open(spec.ID, class); f != nil && (f.Assert == "" || strings.Contains(v.Tag, f.Assert)) {
 					if !knownSeen[class] {
 						knownSeen[class] = true
 						c.Lines = append(c.Lines, fmt.Sprintf("KNOWN-FINDING: property=%s class=%s %s (confirmed on this run: %s %q at %s, tape %s)", spec.ID, class, f.What, v.Kind, v.Tag, v.Where, tapeString(v.Tape)))
